@@ -853,7 +853,7 @@ def kabsch(P, Q):
     return R, float(np.abs(Pc @ R.T - Qc).max())
 
 
-def motion_case(ctx, fail, symbols, X, pairs, steps, label, unit="Ha Å^-2", functional=False):
+def motion_case(ctx, fail, symbols, X, pairs, steps, label, unit="Ha Å^-2", functional=False, frame=None):
     """A species carrying its analytic Hessian is moved with Species.rotate / translate; `steps` is a list of
     ("q",) (query frequencies and all modes), ("r", axis, theta, origin) or ("t", vec).  After every motion that is
     followed by a query (and at the end) the Hessian, frequencies and modes must be those of the CURRENT frame."""
@@ -861,18 +861,25 @@ def motion_case(ctx, fail, symbols, X, pairs, steps, label, unit="Ha Å^-2", fun
     X = np.asarray(X, dtype=float)
     rep = {"kind": "motion-case", "symbols": list(symbols), "coords": X.tolist(), "pairs": [list(p) for p in pairs],
            "steps": [[st[0]] + [np.asarray(a, dtype=float).tolist() if not np.isscalar(a) and a is not None else a for a in st[1:]] for st in steps],
-           "label": label, "unit": unit, "functional": bool(functional)}
+           "label": label, "unit": unit, "functional": bool(functional), "frame": frame}
     try:
         from autode.wrappers.keywords.functionals import pbe0
         fun = pbe0 if functional else None
         H0 = MockNet("ref", pairs).hess(X.flatten())
+        # `frame` = integer quaternion: the Hessian is handed over bound to its OWN atoms in another orientation (as
+        # Gaussian's standard orientation): matrix R1 H R1^T with atoms R1 x + t1; it must then move WITH the species
+        R1 = np.eye(3) if frame is None else rot_from_quat(*frame)
+        t1 = np.zeros(3) if frame is None else np.array([0.5, -1.25, 2.0])
 
         def stored(at):
-            return Hessian(np.array(Hessian(H0.copy(), units="Ha Å^-2").to(unit)), atoms=at, units=unit, functional=fun)
+            Hf = np.kron(np.eye(n), R1) @ H0 @ np.kron(np.eye(n), R1).T
+            if frame is not None:
+                at = Atoms([Atom(a.label, *map(float, R1 @ np.array(a.coord, dtype=float) + t1)) for a in at])
+            return Hessian(np.array(Hessian(Hf, units="Ha Å^-2").to(unit)), atoms=at, units=unit, functional=fun)
         ref = make_molecule(symbols, X)
         ref.hessian = stored(ref.atoms)
         f0 = floats(ref.frequencies)
-        m0 = [np.array(ref.normal_mode(i), dtype=float).flatten() for i in range(3 * n)]
+        m0 = [np.kron(np.eye(n), R1.T) @ np.array(ref.normal_mode(i), dtype=float).flatten() for i in range(3 * n)]   # in the frame of X
         ntr = ref.hessian.n_tr
         numax = max(1.0, float(np.abs(f0).max()))
         plain, _, _, _ = ref_freqs(H0, ref.atoms, scale=(pbe0.freq_scale_factor if functional else 1.0))
@@ -893,6 +900,18 @@ def motion_case(ctx, fail, symbols, X, pairs, steps, label, unit="Ha Å^-2", fun
             if res > 1e-9:
                 fail("Species.rotate|not-rigid", f"{tag}: coordinates are not a rigid image of the original (residual {res:.2e})", rep)
                 return False
+            if mol.hessian.atoms is None:
+                fail("Species.hessian|atoms-not-attached", f"{tag}: the Hessian has no atoms", rep)
+                return False
+            ha0 = np.array([a.coord for a in mol.hessian.atoms], dtype=float)
+            if frame is not None:
+                # the Hessian lives in the frame of its own atoms: they must have undergone the species' motion
+                Rf, resf = kabsch(X, ha0)
+                if resf > 1e-9 or np.abs(Rf - R @ R1).max() > 1e-8:
+                    fail("Species.rotate|hessian-frame-atoms-not-moved", f"{tag}: the Hessian's own atoms (given in another orientation) did not follow "
+                         f"the species' motion (residual {resf:.2e}, rotation mismatch {np.abs(Rf - R @ R1).max():.2e})", rep)
+                    return False
+                R, Xc = Rf, ha0
             full = np.kron(np.eye(n), R)
             if mol.hessian.units != unit:
                 fail("Species.rotate|hessian-units-changed", f"{tag}: the Hessian's unit is now {mol.hessian.units.name}", rep)
@@ -920,7 +939,7 @@ def motion_case(ctx, fail, symbols, X, pairs, steps, label, unit="Ha Å^-2", fun
                 fail("Species.frequencies|changed-by-rigid-motion", f"{tag}: frequencies changed: {np.sort(f0)[-3:].tolist()} -> {np.sort(f1)[-3:].tolist()}", rep)
                 return False
             m1 = [np.array(mol.normal_mode(i), dtype=float).flatten() for i in range(3 * n)]
-            atoms = mol.atoms
+            atoms = mol.hessian.atoms if frame is not None else mol.atoms
             _, _, Ttr, _ = ref_freqs(Hc, atoms)
             V = np.array(m1[ntr:])
             if any(np.abs(v).max() != 0.0 for v in m1[:ntr]):
@@ -1023,6 +1042,11 @@ def oracle_motions(ctx, fail):
             ctx.hist("motion-oracle", name if not name.startswith("random") else "random")
             ctx.hist("motion-oracle", "unit:" + unit)
             motion_case(ctx, fail, symbols, X, pairs, steps, f"motion-{n}-{''.join(symbols)}[{name}]", unit=unit, functional=(k % 2 == 1))
+        if shp != "linear":
+            ctx.count("motion-oracle", (n, shp, "own-frame"), nontrivial=True, sample={"n_atoms": n, "sequence": "Hessian bound to its own atoms in another orientation"})
+            ctx.hist("motion-oracle", "hessian-own-frame")
+            motion_case(ctx, fail, symbols, X, pairs, [("q",), rot(), tr(), ("c",), rot()], f"motion-{n}-{''.join(symbols)}[own-frame]",
+                        unit=units[n % len(units)], functional=False, frame=(2, -1, 3, 1))
 
 # ============================================================================================ oracle B: numerical Hessians
 def fd_bounds(net, x, h):
